@@ -211,12 +211,14 @@ func vkBudgets(s *vkSnap, thorough bool) []vkBudgetKind {
 			set(&b, v-1)
 			out = append(out, vkBudgetKind{"edge-" + name, b})
 		}
+		// exactly what the shadow run's ledger counted: a run that puts MORE packets on the wire than
+		// its ledger admits to (work the ledger never saw) completes here and is caught by the packet count
+		if (thorough || name == "out") && v >= 1 {
+			b := h_rpipe.Budget{}
+			set(&b, v)
+			out = append(out, vkBudgetKind{"exact-" + name, b})
+		}
 		if thorough {
-			if v >= 1 {
-				b := h_rpipe.Budget{}
-				set(&b, v)
-				out = append(out, vkBudgetKind{"exact-" + name, b})
-			}
 			if v >= 6 {
 				b := h_rpipe.Budget{}
 				set(&b, v/2)
